@@ -849,8 +849,9 @@ def check_property(prop_id, tier, spec, seed):
               ),
               assumptions=spec.get("assumptions", []) + COMMON_ASSUMPTIONS,
               wall_s=round(wall, 2), violations=len(violations))
-    os.makedirs(os.path.join(VERIF, "evidence"), exist_ok=True)
-    json.dump(ev, open(os.path.join(VERIF, "evidence", prop_id + ".json"), "w"), indent=1)
+    evdir = os.environ.get("OVM_EVIDENCE_DIR", os.path.join(VERIF, "evidence"))   # development runs on scratch trees write elsewhere
+    os.makedirs(evdir, exist_ok=True)
+    json.dump(ev, open(os.path.join(evdir, prop_id + ".json"), "w"), indent=1)
     # ---------------- report
     for (k, s, desc) in known_hits:
         print("KNOWN-FINDING: property=%s %s [%s: %s]" % (prop_id, k.get("what", ""), s["name"], desc))
@@ -899,6 +900,7 @@ def main():
     ap.add_argument("--max-shards", type=int, default=0, help="development: only the first N shards of every job")
     ap.add_argument("--shard-filter", help="development: only shards whose parameters match, e.g. 0=12,2=3")
     a = ap.parse_args()
+    if a.no_evidence: os.environ["OVM_EVIDENCE_DIR"] = os.path.join(WORK, "evidence-dev")
     sys.path.insert(0, VERIF)
     if a.replay:
         sys.exit(replay_file(a.replay))
